@@ -394,7 +394,7 @@ PROPS["C19"] = {
 
 PROPS["C07"] = {
     "modules": ["SlogModel.Props.C07"],
-    "components": [("pipe-c07", 1500, 30000), ("agent-c07", 30, 300), ("parse", 6000, 100000), ("ser", 1500, 20000), ("xform", 4000, 40000), ("route", 1500, 30000)],
+    "components": [("pipe-c07", 1500, 30000), ("agent-c07", 30, 300), ("parse", 6000, 100000), ("ser", 1500, 20000), ("xform", 4000, 40000), ("route", 1500, 30000), ("flush", 1, 24)],
     "rule": "pipe: one case = one real record path (syslog parser with limits 60/200/2000 and two level mappings, a generated "
             "transform program over a 15-field schema fed by the parsed fields, the Fluentd event serializer with environment / "
             "hidden fields and unescape rewriters) processing 8 lines - the parser's hostile corpus, binary garbage behind a valid "
@@ -402,17 +402,17 @@ PROPS["C07"] = {
             "outcome (rejected / filtered / serialized bytes) is compared with Pipe.process. agent: one case = one end-to-end run "
             "with three extra client connections sending malformed headers, NIL and short timestamps, 70 kB host fields, 300 kB "
             "messages, invalid UTF-8, binary garbage, a reset and a disconnect inside a record, next to ordinary clients whose "
-            "records must all be delivered unaltered; distinct by ops; all non-trivial",
+            "records must all be delivered unaltered; flush: its corpus, for the listener-level cases (a moment without a free file descriptor, pauses inside a line); distinct by ops; all non-trivial",
     "level_text": "C07_pipeline_total (for every byte string, receive time and sampler state the parse -> transform -> serialize "
                   "path of Pipe.process returns - rejected, filtered or serialized - never a panic; composed from C09_total, "
                   "XT.runSteps_total for every program the configuration check accepts, and the serializer model) and "
-                  "C07_stream_total (every sequence of lines is processed to its end, one outcome per line). Framing and timestamp "
+                  "C07_stream_total (every sequence of lines is processed to its end, one outcome per line). C07_listener_keeps_accepting (the accept loop as a small transition system: after every sequence of connections and temporary accept failures - no free file descriptor, no buffer space, an aborted connection - the listener still accepts and has accepted every connection; legacy_F30: before the repair one such failure ended it; fact on the error branches). Framing and timestamp "
                   "totality are C08 / C13. Tie: outcome-by-outcome comparison of the real record path with the composed model on "
                   "generated programs and hostile lines; end-to-end hostile TCP streams with sentinel delivery.",
     "level_note": "Trusted: Lean kernel + 3 standard axioms; regexp-based transforms are opaque in the model (their Go code is "
                   "exercised by the agent runs only); the chunk maker and the output side are C11 / C02. PARTIAL: 'keeps accepting "
-                  "connections' is observed by the end-to-end runs (later generations connect), not modelled.",
-    "partial": "listener liveness observed, not modelled; regexp transforms opaque",
+                  "connections' is modelled for the accept loop's error handling only and otherwise observed (later generations connect, the probe after the reset storm, the listener-level exhaustion case).",
+    "partial": "listener liveness modelled for the accept loop only, otherwise observed; regexp transforms opaque",
     "assumptions": ["the transform program is one the configuration check accepts (C16_verify_sound)"],
 }
 
